@@ -312,7 +312,15 @@ type samEvent struct {
 	CKind   string    `json:"ckind"`
 }
 
+// words that mean something in SAM files (placeholders, header tags): as field values they are ordinary text
+var samWords = []string{"*", "=", "@HD", "@CO", "0", "255", "chr1", "NA", ".", "SO:coordinate", "XX:Z:x", "*AS"}
+
 func samText(r *rand.Rand, allowLeadAt bool) string {
+	if r.Intn(8) == 0 {
+		if w := samWords[r.Intn(len(samWords))]; allowLeadAt || w[0] != '@' {
+			return w
+		}
+	}
 	n := r.Intn(12)
 	if r.Intn(6) == 0 {
 		n = 0
@@ -421,8 +429,13 @@ func samRecord(r *rand.Rand) *sam.SAM {
 	}
 	const k1 = "ABXYZabn"
 	const k2 = "ABCZaz019"
+	klen := []int{2, 2, 2, 2, 3, 3, 1, 4}[r.Intn(8)] // all keys of a record have one length (two in the SAM specification)
 	for i := 0; i < nt; i++ {
-		key := string([]byte{k1[r.Intn(len(k1))], k2[r.Intn(len(k2))]})
+		kb := []byte{k1[r.Intn(len(k1))], k2[r.Intn(len(k2))], k2[r.Intn(len(k2))], k1[r.Intn(len(k1))]}
+		if klen >= 3 && r.Intn(2) == 0 {
+			kb[0], kb[1] = 'X', 'Y' // long keys that share their first two characters
+		}
+		key := string(kb[:klen])
 		switch r.Intn(5) {
 		case 0:
 			s.Tags[key] = byte(32 + r.Intn(95))
